@@ -82,12 +82,27 @@ func c12render(over map[string]string) string {
 	return b.String()
 }
 
+var c12sentinel = strings.Repeat("this is not Go, it was here before; ", 6000)
+
 // c12check runs the command and asserts the universal obligations.
 func c12check(c *C, id string, files []File, args []string, keyClass string) {
 	w := c.W
 	w.FreshDir()
 	for _, f := range files {
 		os.WriteFile(f.Name, []byte(f.Content), 0o644)
+	}
+	// a third of the cases find something at the output path: longer than anything the command writes
+	prefilled := false
+	if h := Sha(id); h[0] <= '5' {
+		for i := 0; i+1 < len(args); i++ {
+			if args[i] == "-o" && args[i+1] == "out.go" {
+				prefilled = true
+			}
+		}
+		if prefilled {
+			os.WriteFile("out.go", []byte(c12sentinel), 0o644)
+			c.Count("runs_with_existing_output")
+		}
 	}
 	start := time.Now()
 	r := Tool("1.0.0", "1.0.0 unknown", args...)
@@ -115,7 +130,11 @@ func c12check(c *C, id string, files []File, args []string, keyClass string) {
 		}
 	} else {
 		c.Count("rejected")
-		if err == nil {
+		if prefilled {
+			if err != nil || string(content) != c12sentinel {
+				c.Violation("failure-touches-output", "exit != 0 but the existing output file was changed or removed ("+id+")", fm, extra)
+			}
+		} else if err == nil {
 			c.Violation("failure-writes-output", "exit != 0 but the output file was written ("+id+")", fm, extra)
 		}
 	}
@@ -127,8 +146,8 @@ func init() {
 		ID:    "C12",
 		Level: "exploration",
 		Rule: "(a) every byte string of length <= 3 (quick) / <= 4 (thorough) over 22 YAML-significant bytes (incl. 0xFF) as a whole input file and spliced at three anchor points of a valid configuration; (b) 41 schema positions x 30 node shapes (null, bools, numbers, non-finite and overflowing numbers, strings, sequences, mappings with scalar / numeric / sequence keys, anchors and aliases, tags, timestamps, merge keys, block indicators) singly and (thorough: all; quick: every pair involving a composite shape in the first position) in pairs; " +
-			"(c) every glob pattern of length <= 3 (quick) / <= 4 (thorough) over {*, ?, [, ], \\, a, /, ., -, ^}; (d) all 64 presence combinations of the 6 flags; (e) complete digraphs K2..K5 (thorough K6) as service and as parameter dependency graphs; (f) nesting depth 2^k up to 4096 and names of 64 KiB; (g) every string of length <= 4 (quick) / <= 5 (thorough) over {(, ), \", a, +, [, ], ., comma, 1} as the argument text of env / envInt / todo chunks; (i) all 64 two-alias tables whose paths begin with aliases x 5 references; (h) all pairs and triples of the 11 semantic defects of C16 x 4 flag combinations. Oracle: returns, exit status 0 or 1, exit 0 => the output parses as Go, exit != 0 => no output written; non-trivial = rejected or contains a non-alphanumeric byte; distinct = distinct input",
-		Assumptions: []string{"a hang is a case exceeding the 120 s watchdog in the worker and in three isolated re-runs; cases slower than 20 s are listed as notes, never as violations", "printer write errors (closed stdout) are outside the input space"},
+			"(c) every glob pattern of length <= 3 (quick) / <= 4 (thorough) over {*, ?, [, ], \\, a, /, ., -, ^}; (d) all 64 presence combinations of the 6 flags; (e) complete digraphs K2..K5 (thorough K6) as service and as parameter dependency graphs; (f) nesting depth 2^k up to 4096 and names of 64 KiB; (g) every string of length <= 4 (quick) / <= 5 (thorough) over {(, ), \", a, +, [, ], ., comma, 1} as the argument text of env / envInt / todo chunks; (i) all 64 two-alias tables whose paths begin with aliases x 5 references; (j) input file names (non-ASCII, combining characters, invalid UTF-8, spaces, up to 240 bytes) x 3 contents x 3 ways of naming them; (h) all pairs and triples of the 11 semantic defects of C16 x 4 flag combinations. Oracle: returns, exit status 0 or 1, exit 0 => the output parses as Go, exit != 0 => no output written and (a third of the cases start with a long file at the output path) an existing file untouched; non-trivial = rejected or contains a non-alphanumeric byte; distinct = distinct input",
+		Assumptions: []string{"a hang is one invocation exceeding the 60 s tool watchdog in the worker and in three isolated re-runs; cases slower than 20 s are listed as notes, never as violations", "printer write errors (closed stdout) are outside the input space"},
 		BudgetQuick: 280 * time.Second, BudgetThorough: 1700 * time.Second,
 		Run: func(w *W) {
 			L, G := 3, 3
@@ -365,6 +384,27 @@ func init() {
 						c.Distinct("nontrivial", c.ID)
 						c12check(c, c.ID, []File{{"c.yaml", y}}, std, "deep")
 					})
+				}
+			}
+			// (j) names of the input files: non-ASCII, spaces, long, named directly and through a glob, valid and invalid content
+			for _, base := range []string{"a", "é", "語", "😀", "a b", "x-", "%d%s", "конфигурация-контейнера", "q\u0301", "\xff\xfe"} {
+				for _, rep := range []int{1, 2, 4, 9, 20, 60} {
+					name := strings.Repeat(base, rep)
+					if len(name) > 240 {
+						continue
+					}
+					name += ".yaml"
+					for ci, content := range []string{valid, "services: [unclosed\n", "parameters: {p: \"%nope%\"}\n"} {
+						for gi, pat := range []string{name, "*.yaml", "./" + name} {
+							name, content, pat := name, content, pat
+							id := fmt.Sprintf("filename/%q/content%d/pattern%d", name, ci, gi)
+							w.Case(id, func(c *C) {
+								c.Distinct("all", id)
+								c.Distinct("nontrivial", id)
+								c12check(c, id, []File{{name, content}}, []string{"-i", pat, "-o", "out.go"}, "filename")
+							})
+						}
+					}
 				}
 			}
 			for _, where := range []string{"param-name", "service-name", "param-value", "getter", "tag", "pattern-ref", "long-args", "many-services"} {
